@@ -200,6 +200,22 @@ def _own(run, repo, world, mod, c):
                                       fn.name if fn else "module level"),
                        where(m, node))
     run.floor("Frame state store sites", n, 5)
+    # a frame's value lives in the frame: no method of the Frame family
+    # writes to anything shared between frames (a class-level memo of checked
+    # slices answers for a frame of another width)
+    from ..seq import shared_state_writes
+    nm = 0
+    for k in fr_classes:
+        km = repo.mod(k.mod)
+        for mn, (kind, f) in sorted(k.methods.items()):
+            nm += 1
+            bad = shared_state_writes(world, k, f)
+            run.ob("R-FRAME-OWN", "%s.%s#nothing-shared" % (k.qname, mn),
+                   not bad, "%s.%s writes to state shared between frames "
+                   "(%s): what one frame accepts or returns then depends on "
+                   "the frames handled before it" % (
+                       k.qname, mn, "; ".join(bad[:3])), where(km, f))
+    run.floor("Frame family methods examined for shared writes", nm, 15)
 
 
 # ---------------------------------------------------------------------------
